@@ -223,4 +223,11 @@ UdpViol(u, d, o) ==
  \cup (IF fldBad THEN {"UdpFields"} ELSE {})
  \cup (IF payBad THEN {"UdpPayload"} ELSE {})
  \cup (IF rtBad THEN {"RoundTrip"} ELSE {})
+
+\* ---- UDP relay level: what is forwarded for a datagram / sent back for a response ---------------
+\* f: [host, ip, port, payload] as handed to the tunnel for one destination
+DestIs(u, f)        == u.st = "result" /\ f.port = u.port /\ AddrSame(u.atyp, u.addr, f.host, f.ip)
+ForwardIs(u, d, f)  == DestIs(u, f) /\ f.payload = Rest(d, u.pay)
+\* a datagram sent back to the application for a response e = [host, ip, port, payload] of destination e
+ReplyIs(g, e) == LET v == RefUdp(g) IN DestIs(v, e) /\ Rest(g, v.pay) = e.payload /\ g[1] = 0 /\ g[2] = 0
 =============================================================================
